@@ -45,7 +45,7 @@ def gen_cases(tier, seed):
             dimorder = [int(x) for x in rng.permutation(N)]
             rep = reps[int(rng.integers(0, 4))]
         optd = None if rng.integers(0, 3) else sorted(int(x) for x in rng.choice(N, size=int(rng.integers(2, N + 1)), replace=False))
-        init = ["given", "given", "random", "nvecs"][int(rng.integers(0, 4))]
+        init = ["given", "given", "random", "nvecs", "indicator"][int(rng.integers(0, 5))]
         if rep == "sumtensor" and init == "nvecs":
             init = "given"
         yield {"w": "als", "rep": rep, "shape": shape, "Rt": Rt, "R": R, "dimorder": dimorder, "optdims": optd, "init": init,
@@ -96,6 +96,15 @@ def run_case(case, ctx):
     dimorder = np.array(case["dimorder"])
     optd = None if case["optdims"] is None else np.array(case["optdims"])
     M0 = ttb.ktensor([rng.random((s, R)) for s in shape])
+    if case["init"] == "indicator":
+        # cluster-indicator style start: columns with disjoint supports in some modes (inner products exactly 0.0)
+        for n in range(N):
+            if rng.random() < 0.7:
+                F = np.zeros((shape[n], R))
+                owner = rng.integers(0, R, size=shape[n])
+                owner[:R] = np.arange(R) if shape[n] >= R else owner[:R]
+                F[np.arange(shape[n]), owner] = rng.random(shape[n]) + 0.5
+                M0.factor_matrices[n] = F
     ctx.feat(rep=rep, init=case["init"], N=N, R=R, all_modes=(optd is None), fixsigns=case["fixsigns"], printitn=case["printitn"], stoptol=case["stoptol"])
     normX2 = float(np.sum(Xd ** 2))
     data_digest = state_digest(D)
@@ -103,8 +112,9 @@ def run_case(case, ctx):
     stop0 = case["stoptol"] == 0.0
     do = [int(d) for d in dimorder if (optd is None or d in optd)]
     for mi in range(1, case["kmax"] + 1):
-        init_arg = M0.copy() if case["init"] == "given" else case["init"]
-        guess_digest = state_digest(init_arg) if case["init"] == "given" else None
+        given = case["init"] in ("given", "indicator")
+        init_arg = M0.copy() if given else case["init"]
+        guess_digest = state_digest(init_arg) if given else None
         np.random.seed(case["gseed"])
         D.log.clear()
         r = ctx.call("cp_als", _quiet, ttb.cp_als, D, R, init=init_arg, maxiters=mi, stoptol=case["stoptol"], dimorder=dimorder.copy(),
@@ -141,7 +151,9 @@ def run_case(case, ctx):
                       f"residual^2 grew from {prevR2!r} (maxiters={mi - 1}) to {R2!r} (maxiters={mi})", maxiters=mi)
         prevR2 = R2
         nn = [np.linalg.norm(f, axis=0) for f in M.factor_matrices]
-        ctx.check(all(np.allclose(n_[n_ > 0], 1, atol=1e-10) for n_ in nn), "cp_als", "NORMAL-FORM", "factor columns are not unit 2-norm")
+        # data unfoldings have rank >= requested rank, so no component may vanish: every column has unit norm
+        ctx.check(all(np.allclose(n_, 1, atol=1e-10) for n_ in nn), "cp_als", "NORMAL-FORM",
+                  lambda: f"factor columns are not unit 2-norm: {[np.round(n_, 6).tolist() for n_ in nn]}")
         ctx.check(not (M.weights < 0).any() and not (np.diff(M.weights) > 1e-12).any(), "cp_als", "NORMAL-FORM", f"weights not non-negative descending: {M.weights.tolist()}")
         ctx.check(out["iters"] + 1 <= mi, "cp_als", "ITERS", f"iters {out['iters']} exceeds maxiters {mi}")
         if stop0:
